@@ -29,7 +29,7 @@ BAD_SHAPES = {
 NAMESETS = [["User", "UserProfile", "UserProfileSettings"], ["B", "A", "C", "a"], ["Zeta", "alpha", "Beta", "_x", "$y"],
             ["T1", "T10", "T2"], ["É", "E", "e"]]
 IMPORTSETS = [{}, {"./Dep": ["Dep"]}, {"./Dep": ["Dep", "Other"], "../x/Y": ["Y"]}, {"./sub/Z": ["Z"]}, {"./Dep": ["Other"]},
-              {"./a-b": ["$q", "_r"]}, {"./from": ["from"], "./a from b": ["As", "from"]}, {"../with space/x": ["import", "type"]}]
+              {"./a-b": ["$q", "_r"]}, {"./from": ["from"], "./a from b": ["As", "from"]}, {"../with space/x": ["imports", "type"]}]
 
 
 def make_sets(ctx, bad=False):
